@@ -14,7 +14,7 @@ import (
 // once, or inside an if arm.  The reference evaluator judges the wrapped text, so
 // nothing is assumed about equivalence; the point is that every semantic
 // generator also exercises its subject from inside the other constructs.
-var placementNames = []string{"top-level", "in-block", "in-function", "in-loop-once", "in-if-arm", "in-nested-function"}
+var placementNames = []string{"top-level", "in-block", "in-function", "in-loop-once", "in-if-arm", "in-nested-function", "in-function-called-3-times", "in-loop-3-iterations"}
 
 func indent(src string) string {
 	lines := strings.Split(strings.TrimSuffix(src, "\n"), "\n")
@@ -38,6 +38,13 @@ func place(src string, k int) string {
 		return bn.KwIf + " (" + bn.KwTrue + ") {\n" + indent(src) + "} " + bn.KwElse + " {\n  " + bn.KwPrint + " \"never\";\n}\n"
 	case 5:
 		return bn.KwFun + " outer__(depth__) {\n  " + bn.KwFun + " inner__() {\n" + indent(indent(src)) + "  }\n  " + bn.KwIf + " (depth__ > 0) " + bn.KwReturn + " outer__(depth__ - 1);\n  " + bn.KwReturn + " inner__();\n}\nouter__(2);\n"
+	}
+	switch k % len(placementNames) {
+	case 6:
+		// every syntactic node of the program is evaluated three times, each time with fresh local state
+		return bn.KwFun + " again__() {\n" + indent(src) + "}\nagain__();\n" + bn.KwPrint + " \"second-run\";\nagain__();\n" + bn.KwPrint + " \"third-run\";\nagain__();\n"
+	case 7:
+		return bn.KwFor + " (" + bn.KwVar + " round__ = 0; round__ < 3; round__ = round__ + 1) {\n" + indent(src) + "  " + bn.KwPrint + " \"round-done\";\n}\n"
 	}
 	return src
 }
